@@ -2,7 +2,8 @@
 import ast
 
 from ..model import dotted, src, calls_in, kw, AnalysisError
-from ..common import fpaths, peel, actual, mkterm, mkbool, guard_assignment, same_expr, const_str, status_key
+from ..common import (fpaths, peel, actual, mkterm, mkbool, guard_assignment, same_expr, const_str, status_key, truth_on_path, none_state,
+                      isinstance_state, order_facts, simplify_extrema, str_state)
 from ..terms import Term, exp2, ite, NotATerm, witness, tmin, tmax, t_or, fapp, nonneg, Facts
 from .. import anchors as A
 
@@ -45,7 +46,9 @@ def results_through_funnel(ck, rule):
                        "an extra operation between the computation and the single quantization of the sink")
                 failed = True
                 break
-            rawv = raw.value if isinstance(raw, ast.Constant) else None
+            rawv = truth_on_path(raw, pf.guards) if raw is not None else (False if kind == "set_val" or True else None)
+            if raw is None:
+                rawv = False     # default raw=False of set_val / the constructor
             if rawv is None or bool(rawv) != is_kernel:
                 ck.bad(rule, w, "raw=True accompanies the integer-code kernel and raw=False the value route", "%s route stored with raw=%s" % ("kernel" if is_kernel else "repr", src(raw) if raw is not None else None), pf.ret_stmt,
                        "codes would be scaled again / values taken as codes")
@@ -221,21 +224,27 @@ def single_quantization(ck, rule, results, only=None):
                   "recast": "re-casting operand codes to another machine integer type reinterprets negative codes (int64 -> uint64 wraps) or narrows them"}.get(badev[0][0]) if badev else None)
 
 
-def _nocoerce_path(prog, f, call):
+def _nocoerce_paths(prog, f, call):
     """PathFacts of f reaching `call` on which no operand was coerced with Fxp(x)"""
+    out = []
     for pf in fpaths(prog, f):
         if pf.end != "return":
             continue
-        if not any(ce.raw is call for ce in pf.calls):
+        ces = [ce for ce in pf.calls if ce.raw is call]
+        if not ces:
             continue
         coerced = False
-        for g in pf.guards:
-            t = g[2]
-            if isinstance(t, ast.UnaryOp) and isinstance(t.op, ast.Not) and isinstance(t.operand, ast.Call) and dotted(t.operand.func) == "isinstance" and g[1]:
+        for nm in ("x", "y", "a"):
+            if isinstance_state(pf.guards, nm) is False:
+                coerced = True
+        # operands rebound to a constructor call
+        for nm in ("x", "y", "a"):
+            v = pf.env.get(nm)
+            if v is not None and dotted(v) != nm:
                 coerced = True
         if not coerced:
-            return pf
-    return None
+            out.append(pf)
+    return out
 
 
 def wellformed(prefixes):
@@ -246,17 +255,10 @@ def wellformed(prefixes):
     return m
 
 
-def optimal_sizes(ck, prog, f, call, alias=None):
-    """(signed, n_word_eff, n_int, n_frac) Terms of the optimal size packed at this wrapper call, or None"""
-    pf = _nocoerce_path(prog, f, call)
-    if pf is None:
-        return None
-    ce = [c for c in pf.calls if c.raw is call][0]
-    os_ = kw(ce.call, "optimal_size")
-    if os_ is None or (isinstance(os_, ast.Constant) and os_.value is None):
-        return None
-    if not isinstance(os_, ast.Tuple) or len(os_.elts) != 4:
-        return "unrecognised"
+def optimal_sizes_all(ck, prog, f, call, alias=None):
+    """[(signed, n_word, n_int, n_frac, pf)] Terms of the optimal size packed at this wrapper call, one per (uncoerced) path; max/min atoms are
+    resolved with the order facts of the path, so `b if b > a else a` and max(a, b) give the same terms"""
+    res = []
     al = alias or {}
 
     def ren(d):
@@ -264,15 +266,33 @@ def optimal_sizes(ck, prog, f, call, alias=None):
         if head in al:
             return al[head] + d[len(head):]
         return d
-    tb = TermBuilder(rename=ren)
-    try:
-        sg = tb.boolean(os_.elts[0])
-        nw = tb.term(os_.elts[1])
-        ni = tb.term(os_.elts[2])
-        nf = tb.term(os_.elts[3])
-    except NotATerm as e:
-        return "unrecognised: %s" % e
-    return sg, nw, ni, nf, pf
+    for pf in _nocoerce_paths(prog, f, call):
+        ce = [c for c in pf.calls if c.raw is call][0]
+        os_ = kw(ce.call, "optimal_size")
+        if os_ is None or (isinstance(os_, ast.Constant) and os_.value is None):
+            return None
+        if not isinstance(os_, ast.Tuple) or len(os_.elts) != 4:
+            return "unrecognised"
+        tb = TermBuilder(rename=ren)
+        try:
+            sg = tb.boolean(os_.elts[0])
+            nw = tb.term(os_.elts[1])
+            ni = tb.term(os_.elts[2])
+            nf = tb.term(os_.elts[3])
+        except NotATerm as e:
+            return "unrecognised: %s" % e
+        asg = guard_assignment(pf.guards, rename=ren)
+        res.append((sg.subst(asg), nw.subst(asg), ni.subst(asg), nf.subst(asg), pf, asg))
+    return res or None
+
+
+def optimal_sizes(ck, prog, f, call, alias=None):
+    r = optimal_sizes_all(ck, prog, f, call, alias)
+    if r is None or isinstance(r, str):
+        return r
+    # the path with the fewest guards (no case split) when there is one, else the first
+    r0 = sorted(r, key=lambda x: len(x[4].guards))[0]
+    return r0[:5]
 
 
 from ..terms import TermBuilder
@@ -328,8 +348,7 @@ def sizing_record(ck, rule):
                 continue
             r = peel(pf.ret)[0]
             if isinstance(r, ast.Call) and prog.is_fxp_ctor(w, r):
-                noout = [g for g in pf.guards if g[2] is not None and src(g[2]) in ("out is not None", "out_like is not None") and g[1]]
-                if noout:
+                if none_state(pf.guards, "out") is False or none_state(pf.guards, "out_like") is False:
                     continue
 
                 def from_sizing(e, idx):
@@ -362,23 +381,30 @@ def growth_rules(ck, rule, names=("add", "sub", "mul")):
     for f, w, call in public_functions(prog):
         if f.name not in names:
             continue
-        r = optimal_sizes(ck, prog, f, call)
-        if r is None or isinstance(r, str):
-            ck.bad(rule, f, "%s packs an optimal size for its result" % f.name, "optimal_size %s" % r, call, "without it the result takes the first operand's size and can overflow")
+        rs = optimal_sizes_all(ck, prog, f, call)
+        if rs is None or isinstance(rs, str):
+            ck.bad(rule, f, "%s packs an optimal size for its result" % f.name, "optimal_size %s" % rs, call, "without it the result takes the first operand's size and can overflow")
             continue
-        sg, nw, ni, nf, pf = r
         osg, oni, onf = oracle[f.name]
-        ni2, nf2 = ni.subst(wf), nf.subst(wf)
-        ck.saw(f, terms=3)
-        same, _ = equiv(sg, osg)
-        ck.check(same, rule, f, "%s: result is signed iff an operand is signed" % f.name, "signed = %s" % sg.show(), call, "a signed operand stored in an unsigned result loses its sign")
-        same, cex = equiv(nf2, onf)
-        ck.check(same, rule, f, "%s: result n_frac = %s" % (f.name, onf.show()), "n_frac = %s" % nf2.show(), call,
-                 {"witness": witness(nf2, onf), "meaning": "fraction bits are lost or the result is mis-sized"})
-        same, cex = equiv(ni2, oni)
-        ck.check(same, rule, f, "%s: result n_int = %s" % (f.name, "max(x.n_int, y.n_int) + 1" if f.name != "mul" else "x.n_word + y.n_word - [signed] - n_frac"),
-                 "n_int = %s (booleans %s)" % (ni2.show(), cex), call, {"witness": witness(ni2.subst({}), oni), "meaning": "the exact result does not fit: overflow with extreme operands"})
-        GROWTH[f.name] = (sg, ni2, nf2)
+        okall = True
+        for sg, nw, ni, nf, pf, asg in rs:
+            ge = order_facts(pf.guards, rename=lambda d: d)
+            ge = [(a.subst(wf), b.subst(wf)) for a, b in ge]
+            ni2, nf2 = ni.subst(wf), nf.subst(wf)
+            o_sg, o_ni, o_nf = osg.subst(asg), simplify_extrema(oni.subst(asg), ge), simplify_extrema(onf.subst(asg), ge)
+            ni2, nf2 = simplify_extrema(ni2, ge), simplify_extrema(nf2, ge)
+            ck.saw(f, terms=3)
+            same, _ = equiv(sg, o_sg)
+            okall &= ck.check(same, rule, f, "%s: result is signed iff an operand is signed" % f.name, "signed = %s" % sg.show(), call, "a signed operand stored in an unsigned result loses its sign")
+            same, cex = equiv(nf2, o_nf)
+            okall &= ck.check(same, rule, f, "%s: result n_frac = %s" % (f.name, onf.show()), "n_frac = %s" % nf2.show(), call,
+                              {"witness": witness(nf2, o_nf), "meaning": "fraction bits are lost or the result is mis-sized"})
+            same, cex = equiv(ni2, o_ni)
+            okall &= ck.check(same, rule, f, "%s: result n_int = %s" % (f.name, "max(x.n_int, y.n_int) + 1" if f.name != "mul" else "x.n_word + y.n_word - [signed] - n_frac"),
+                              "n_int = %s (booleans %s)" % (ni2.show(), cex), call, {"witness": witness(ni2, o_ni), "meaning": "the exact result does not fit: overflow with extreme operands"})
+        # representative (unsplit) terms for the rules that substitute the optimal n_frac
+        sg, nw, ni, nf, pf, asg = sorted(rs, key=lambda x: len(x[4].guards))[0]
+        GROWTH[f.name] = (osg, oni, onf) if okall else (sg, ni.subst(wf), nf.subst(wf))
 
 
 def alignment_exponents_nonneg(ck, rule, results, names, nfrac_of):
@@ -640,12 +666,16 @@ def governing_config(ck, rule):
         if pf.end != "return" or pf.ret is None:
             continue
         r = peel(pf.ret)[0]
-        has_out = [g for g in pf.guards if g[2] is not None and src(g[2]) == "out is not None"]
-        has_like = [g for g in pf.guards if g[2] is not None and src(g[2]) == "out_like is not None"]
-        if len({g[1] for g in has_out}) > 1:
+        states = set()
+        for g in pf.guards:
+            # raw test: `out` is rebound (out = out[0]) between the two tests, the name is what matters here
+            st_ = none_state([(g[2] if g[2] is not None else g[0], g[1])], "out")
+            if st_ is not None:
+                states.add(st_)
+        if len(states) > 1:
             continue    # out tested twice with different outcomes: excluded by the isinstance(out, Fxp) check in between
-        out_given = bool(has_out and has_out[-1][1])
-        like_given = bool(has_like and has_like[-1][1])
+        out_given = (False in states)
+        like_given = none_state([(g[2] if g[2] is not None else g[0], g[1]) for g in pf.guards], "out_like") is False
         if isinstance(r, ast.Call) and isinstance(r.func, ast.Attribute) and r.func.attr == "set_val":
             recv = peel(r.func.value)[0]
             base = recv.value if isinstance(recv, ast.Subscript) else recv
